@@ -206,13 +206,7 @@ def judgeLiveReal (a : Acc) (l : String) (op obs : List String) : J Acc := do
   if got != some model then .error (.mismatch s!"aligned live ticks {relS} differ from the model")
   pure ({ a with nt := true }.add "live-real-aligned")
 
-/-! ### sched -/
-
-structure ObsQ where
-  cond : Option Cond
-  gb : Option (Int × Int)
-  raw : String
-deriving Inhabited
+/-! ### dims -/
 
 def parseGb (s : String) : Option (Option (Int × Int)) :=
   if s == "-" then some none else
@@ -220,12 +214,45 @@ def parseGb (s : String) : Option (Option (Int × Int)) :=
   | [a, b] => do let a ← a.toInt?; let b ← b.toInt?; pure (some (a, b))
   | _ => none
 
+
+def judgeDims (a : Acc) (l : String) (op obs : List String) : J Acc := do
+  let [_, lenS, offS, agS, sS] := op | bad l
+  let some len := lenS.toInt? | bad l
+  let some off := offS.toInt? | bad l
+  let some s := sS.toInt? | bad l
+  let ag := agS == "1"
+  let [o] := obs | bad l
+  if o == "panic" then
+    .error (.specfail "no-crash-on-settings" s!"group by time({len}, {off}) alignGroup={ag}: Dimensions/SetStartTime panicked")
+  if !validDims (some (len, off)) then
+    if o != "err" then .error (.mismatch s!"time dimension {len}: the model refuses it, Dimensions answered {o}")
+    return ({ a with nt := true }.add (if len = 0 then "dims-zero-rejected" else "dims-negative-rejected"))
+  let q := ((newQuery none (some (len, off)) ag).setStartTime s).setStopTime (s + 1000000000)
+  let some g := (if o.startsWith "gb=" then parseGb (o.drop 3).toString else none) | .error (.mismatch s!"Dimensions answered {o}")
+  match g with
+  | some og =>
+    if ag && !(og.1 == len && gbAligned s og) then
+      .error (.specfail "group-by-aligned" s!"group by time{og} is not aligned with the start {s}")
+    if !ag && og != (len, off) then .error (.specfail "group-by-kept" s!"group by {og}, configured ({len}, {off})")
+  | none => .error (.specfail "group-by-kept" "the time dimension is gone")
+  if q.gb != g then .error (.mismatch s!"group by {o} differs from the model's {q.gb}")
+  pure ((a.add (if ag then "dims-aligngroup" else "dims-plain")).addIf (s < 0) "dims-before-1970")
+
+/-! ### sched -/
+
+structure ObsQ where
+  cond : Option Cond
+  gb : Option (Int × Int)
+  extra : String
+  raw : String
+deriving Inhabited
+
 def parseObsQ (s : String) : Option ObsQ :=
   match s.splitOn ";" with
-  | [tree, gb, _crc] => do
+  | [tree, gb, extra, _crc] => do
     let c ← parseObsTree tree
     let g ← parseGb gb
-    pure { cond := c, gb := g, raw := s }
+    pure { cond := c, gb := g, extra := extra, raw := s }
   | _ => none
 
 def parseObsQs (s : String) : Option (List ObsQ) :=
@@ -237,7 +264,7 @@ def parseDBRPs (s : String) : List DBRP :=
     | [d, r] => some (d, r)
     | _ => none)
 
-def sameIssued (o : ObsQ) (m : Issued) : Bool := o.cond == m.cond && o.gb == m.gb
+def sameIssued (o : ObsQ) (m : Issued) : Bool := o.cond == m.cond && o.gb == m.gb && o.extra == m.extra
 
 def sameList (os : List ObsQ) (ms : List Issued) : Bool :=
   os.length == ms.length && (os.zip ms).all (fun p => sameIssued p.1 p.2)
@@ -271,6 +298,17 @@ def judgeSched (a : Acc) (l : String) (op obs : List String) : J Acc := do
   -- rel ≠ 0: the case's origin is `rel` ns before the wall clock's now, all times on the wire are relative to it
   let rel := (kvInt kv "rel").getD 0
   let nowA : Int := if rel != 0 then rel else nowAssumed
+  let gbz := kvGet kv "gbz" == some "1"
+  let ptMax : Option Int := (kvGet kv "pt").bind String.toInt?
+  let fires : List Int := match kvGet kv "fires" with
+    | some f => (f.splitOn ",").filterMap String.toInt?
+    | none => []
+  -- fill option and tag dimensions as configured, in the rendering the harness uses for issued texts
+  let fillCfg := match (kvGet kv "fill").getD "-" with
+    | "-" => "null" | "null" => "null" | "0" => "number:0" | f => f
+  let tagsCfg := match (kvGet kv "tags").getD "0" with
+    | "1" => "host" | "2" => "*" | _ => "-"
+  let extraCfg := fillCfg ++ "/" ++ tagsCfg
   let some ticksS := kvGet kv "ticks" | bad l
   let some ticks := (if ticksS == "-" then some [] else (ticksS.splitOn ",").mapM String.toInt?) | bad l
   let decl := parseDBRPs ((kvGet kv "decl").getD "")
@@ -288,12 +326,18 @@ def judgeSched (a : Acc) (l : String) (op obs : List String) : J Acc := do
     let K := cron * 1000000000
     let next : Int → Option Int := match sch with
       | .every d x => fun t => some (tickerNext d x t)
-      | .cron => cronNext K
+      | .cron => if cron < 0 then cronListNext fires else cronNext K
     let specSch : Schedule := match sch with
       | .every d x => .every d x
-      | .cron => .cronEvery K
-    let gbCfg : Option (Int × Int) := if gb != 0 then some (gb, gbo) else none
-    let q0 := newQuery user gbCfg ag
+      | .cron => if cron < 0 then .cronList fires else .cronEvery K
+    let gbCfg : Option (Int × Int) := if gbz then some (0, gbo) else if gb != 0 then some (gb, gbo) else none
+    -- Query.Dimensions refuses a non-positive time dimension (before: accepted, and alignGroup divided by zero)
+    if !validDims gbCfg then
+      if st == "ok" then
+        .error (.specfail "no-crash-on-settings" s!"group by time({gbCfg}) was accepted; with alignGroup the first tick divides by zero")
+      if st != "err:dims" then .error (.mismatch s!"time dimension {gbCfg}: the model refuses it, the node said {st}")
+      return ({ a with nt := true }.add "dims-rejected-task")
+    let q0 := newQuery user gbCfg ag extraCfg
     -- (6) sources
     let hsrc := parseDBRPs ((kvGet obs "hsrc").getD "")
     let lsrc := parseDBRPs ((kvGet obs "lsrc").getD "")
@@ -334,6 +378,19 @@ def judgeSched (a : Acc) (l : String) (op obs : List String) : J Acc := do
             | none => .error (.specfail "group-by-kept" s!"tick {T}: the time dimension is gone")
           else if o.gb != some g then .error (.specfail "group-by-kept" s!"tick {T}: group by {o.gb}, configured {g}")
         | none => if o.gb.isSome then .error (.specfail "group-by-kept" s!"tick {T}: unexpected time dimension")
+        if !extraKept extraCfg o.extra then
+          .error (.specfail "fill-and-dimensions-kept" s!"tick {T}: issued fill/dimensions {o.extra}, configured {extraCfg}")
+      -- the batches handed downstream carry the window's end
+      let some btS := kvGet obs "bt" | bad l
+      let some bts := (if btS == "-" then some [] else (btS.splitOn ",").mapM String.toInt?) | bad l
+      if bts.length != ticks.length then
+        .error (.specfail "one-batch-per-tick" s!"{ticks.length} ticks, {bts.length} batches reached the next node")
+      for (bt, T) in bts.zip ticks do
+        let stopT := (rangeOfTick off per T).2
+        if !batchTimeHolds gbCfg.isSome ptMax stopT bt then
+          .error (.specfail "batch-time-is-window-end" s!"tick {T}: batch time {bt}, window end {stopT}, grouped by time {gbCfg.isSome}, latest point {ptMax}")
+        if bt != batchTime gbCfg.isSome ptMax (tickRange off per T).2 then
+          .error (.mismatch s!"tick {T}: batch time {bt} differs from the model")
       -- (4) history = live
       let s' := effStop stop nowA
       if lt then
@@ -373,6 +430,14 @@ def judgeSched (a : Acc) (l : String) (op obs : List String) : J Acc := do
       let a := a.addIf (!lt) "arbitrary-ticks"
       let a := a.addIf (nodes.length > 1) "multi-node"
       let a := a.addIf (start < 0) "before-1970"
+      let a := a.addIf (cron < 0) "cron-ending"
+      let a := a.addIf (cron < 0 && lt && (firstLiveAfter specSch start (ticks.getLast?.getD start)).isNone) "cron-ended-before-stop"
+      let a := a.addIf (!ticks.isEmpty && gbCfg.isSome && ptMax.isSome) "batch-time-from-points"
+      let a := a.addIf (!ticks.isEmpty && gbCfg.isSome && ptMax.isNone) "batch-time-grouped-no-points"
+      let a := a.addIf (!ticks.isEmpty && gbCfg.isNone && ptMax.isSome) "batch-time-stop-despite-points"
+      let a := a.addIf (!ticks.isEmpty && gbCfg.isNone && ptMax.isNone) "batch-time-stop"
+      let a := a.add ("fill-" ++ fillCfg)
+      let a := a.add ("tags-" ++ tagsCfg)
       pure { a with nt := a.nt || H.length ≥ 2 || (!lt && L.length ≥ 2) }
 
 def judge (_id : String) (lines : Array String) : Verdict :=
@@ -382,6 +447,7 @@ def judge (_id : String) (lines : Array String) : Verdict :=
     | some "splice" => judgeSplice a l op obs
     | some "tick" => judgeTick a l op obs
     | some "livereal" => judgeLiveReal a l op obs
+    | some "dims" => judgeDims a l op obs
     | some "sched" => judgeSched a l op obs
     | _ => bad l)
   match r with
